@@ -336,11 +336,15 @@ void EntityManager::applyCommandPack(TemporalStorage& storage, size_t begin, siz
 
     Archetype& archetype = getArchetype(final_mask, shared);
     if (create) {
-        archetype.insert(entity, initial_mask.inverse());
+        // construct everything the commands do not supply a value for (the dependency closure included)
+        archetype.insert(entity, final_mask.intersection(initial_mask.inverse()));
     }
     else if (initial_mask != final_mask) {
         const auto location = locations_[entity.id()];
-        archetype.externalMove(entity, getArchetype(location.archetype), location.index, final_mask);
+        auto& prev_archetype = getArchetype(location.archetype);
+        if (&archetype != &prev_archetype) { // e.g. removal of a dependent whose master stays: nothing to move
+            archetype.externalMove(entity, prev_archetype, location.index, final_mask);
+        }
     }
 
     auto view = archetype.getElementView(locations_[entity.id()].index);
@@ -349,8 +353,32 @@ void EntityManager::applyCommandPack(TemporalStorage& storage, size_t begin, siz
         if (command.action != TemporalStorage::Action::kAssignComponent) {
             continue;
         }
+        // the last command on a component decides: an assignment followed by a removal or by another
+        // assignment of the same component is dropped (its temporary is destroyed with the buffer)
+        bool superseded = false;
+        for (size_t j = i + 1; j < end && !superseded; ++j) {
+            const auto& next = storage.actions_[j];
+            superseded = (next.action == TemporalStorage::Action::kRemoveComponent ||
+                          next.action == TemporalStorage::Action::kAssignComponent) &&
+                         next.component_id == command.component_id;
+        }
+        if (superseded) {
+            continue;
+        }
         auto dest = view.getData(archetype.getComponentIndex(command.component_id));
+        if (dest == nullptr) {
+            continue;
+        }
         const auto& component_functions = ComponentFactory::instance().componentInfo(command.component_id).functions;
+        if (initial_mask.has(command.component_id)) {
+            // removed and assigned again inside this pack: the previous instance is still in place
+            if (component_functions.before_remove) {
+                component_functions.before_remove(dest, command.entity, world_);
+            }
+            if (component_functions.destroy) {
+                component_functions.destroy(dest);
+            }
+        }
         component_functions.move_constructor(dest, command.ptr);
         if (component_functions.after_assign) {
             component_functions.after_assign(dest, command.entity, world_);
